@@ -275,6 +275,22 @@ def _impl(tier, seed, search):
                 L.close('exp-log-near-degenerate-axis', ref_exp(skew(np.asarray(Lg[0], float))), Rn, TOL, 1.0, inp, what='exp(log R) differs from R for an obtuse rotation about an axis with a tiny leading component', sig='exp-log-so3')
                 L.close('exp-log-near-degenerate-axis-se3', ref_exp(skewa(np.asarray(Lg[1], float))), Tn, TOL, 1.0, inp, sig='exp-log-se3'); L.close('exp-log-near-degenerate-axis-mat', ref_exp(np.asarray(Lg[2], float)), Rn, TOL, 1.0, inp, sig='exp-log-so3')
                 L.close('log-near-degenerate-axis:value', np.asarray(Lg[0], float), a_ * th_, TOL, 1.0, inp, sig='exp-log-so3')
+    # ---- the motion parameter at exactly zero (identity), negative, and as an array: S.exp(theta) = exp(theta S) for both twist classes ----
+    for k_ in range(6 if tier == 'quick' else 40):
+        S3z = Twist3(np.r_[g.normal(size=3), axis(g)]); S2z = Twist2(np.r_[g.normal(size=2), float(g.choice([-1.0, 1.0]))]); thz = float(g.uniform(0.2, 2.0))
+        for nm_, Sz_, ref_ in (('Twist3', S3z, lambda t_: ref_exp(skewa(S3z.S * t_))), ('Twist2', S2z, lambda t_: ref_exp(np.array([[0, -S2z.S[2], S2z.S[0]], [S2z.S[2], 0, S2z.S[1]], [0, 0, 0]]) * t_))):
+            for tv_ in (0, 0.0, -0.0, -thz, thz):
+                ok, r = L.noraise(f'{nm_}.exp({tv_!r})', lambda: Sz_.exp(tv_).A, dict(S=Sz_.S, theta=tv_), f'{nm_}.exp(theta)')
+                if ok: L.close(f'{nm_}.exp(theta)', r, ref_(float(tv_)), TOL, max(1.0, geom.tmag(ref_(float(tv_)))), dict(S=Sz_.S, theta=tv_), what=f'{nm_}.exp(theta) is not exp(theta S)' + (' at theta = 0 (the identity)' if tv_ == 0 else ''), sig=f'{nm_}.exp(theta)')
+            for fm_, mk_ in (('array', np.array), ('list', list)):
+                ok, r = L.noraise(f'{nm_}.exp({fm_})', lambda: [np.asarray(x_, float) for x_ in Sz_.exp(mk_([0.0, thz, -thz])).data], dict(S=Sz_.S), f'{nm_}.exp({fm_} of three angles, one of them 0)')
+                if ok and len(r) == 3:
+                    for j_, t_ in enumerate((0.0, thz, -thz)): L.close(f'{nm_}.exp({fm_})', r[j_], ref_(t_), TOL, max(1.0, geom.tmag(ref_(t_))), dict(S=Sz_.S, k=j_), sig=f'{nm_}.exp(theta)')
+                elif ok: L.check(f'{nm_}.exp({fm_}):len', False, dict(S=Sz_.S), f'{nm_}.exp of three angles gives {len(r)} motions', sig=f'{nm_}.exp(theta)')
+        ok, r = L.noraise('trexp(S, negative theta)', lambda: (b.trexp(S3z.S, -thz), b.trexp(skewa(S3z.S), -thz), b.trexp2(S2z.S, -thz)), dict(S=S3z.S, theta=-thz), 'trexp(S, theta) with negative theta')
+        if ok:
+            L.close('trexp(S,-theta)', r[0], ref_exp(skewa(S3z.S * -thz)), TOL, max(1.0, geom.tmag(r[0])), dict(S=S3z.S, theta=-thz), what='trexp(S, theta) with a negative theta is not exp(theta S)', sig='exp(S,theta)')
+            L.close('trexp([S],-theta)', r[1], ref_exp(skewa(S3z.S * -thz)), TOL, max(1.0, geom.tmag(r[0])), dict(S=S3z.S, theta=-thz), sig='exp(S,theta)')
     # ---- quarter turns about generic axes (the sine of the angle is 1 to within rounding, on either side) ----------------------
     qaxes = [np.array([x_, y_, z_], float) for x_ in range(-4, 5) for y_ in range(-4, 5) for z_ in range(-4, 5) if (x_, y_, z_) != (0, 0, 0)]
     for k_, a_ in enumerate(qaxes if tier != 'quick' else qaxes[(seed % 3)::3]):
